@@ -53,7 +53,7 @@ def run(ctx):
         binding_selftest(ctx, "UdpRef_Trace", "UdpRef_Trace.cfg", t1, mutate_export,
                          label="selftest2", env=ENV)
     ctx.coverage.update({
-        "model_edges_covered": gstats["model_edges"], "edge_cover_ops": gstats["ops"],
+        "model_edges": gstats["model_edges"], "model_edges_covered": gstats["covered"], "edge_cover_ops": gstats["ops"],
         "random_runs": nruns, "random_ops": nruns * nops,
         "rule": "edge cover of the generation model with two peer ids (re-announce with a new id, stop, "
                 "expiry) and random histories biased to peer-id changes; after every announce and every "
